@@ -31,7 +31,8 @@ end
 
 mutual
 /-- normal form: no parentheses, flat unions / intersections, adjacent object literals of an
-    intersection merged, references to `names` unfolded through `D` (fuel-bounded) -/
+    intersection merged, references to `names` unfolded through `D`; the fuel bounds the DEPTH only (lists of elements / fields
+    are traversed at the same fuel, so a wide object does not exhaust it) -/
 def norm (D : Decls) (names : List Str) : Nat → Ts → Ts
   | 0, t => t
   | f + 1, t =>
@@ -59,14 +60,15 @@ def norm (D : Decls) (names : List Str) : Nat → Ts → Ts
       let merged := if objs = [] then rest else .obj objs.flatten :: rest
       match merged with | [y] => y | _ => .inter merged
     | x => x
+termination_by f t => (f, 0)
 def normL (D : Decls) (names : List Str) : Nat → List Ts → List Ts
-  | 0, ts => ts
-  | _ + 1, [] => []
-  | f + 1, t :: ts => norm D names f t :: normL D names f ts
+  | _, [] => []
+  | f, t :: ts => norm D names f t :: normL D names f ts
+termination_by f ts => (f, ts.length + 1)
 def normF (D : Decls) (names : List Str) : Nat → List (TsKey × Ts) → List (TsKey × Ts)
-  | 0, fs => fs
-  | _ + 1, [] => []
-  | f + 1, (k, t) :: fs => (k, norm D names f t) :: normF D names f fs
+  | _, [] => []
+  | f, (k, t) :: fs => (k, norm D names f t) :: normF D names f fs
+termination_by f fs => (f, fs.length + 1)
 end
 
 mutual
